@@ -28,6 +28,14 @@ func LoadFailRecord(path string) (*FailRecord, error) {
 // oraclesFor maps a property id to the oracles of its history check.
 var oraclesFor = map[string]Oracles{
 	"C01": {CollEveryStep: true},
+	"C02": {},
+	"C10": {ReadPaths: true},
+	"C08": {CollEveryStep: true, StoreEveryStep: true, FinalReopen: true},
+	"C11": {CollEveryStep: true, StoreEveryStep: true, FinalReopen: true, PersistErrFatal: true, ChildLabels: true},
+	"C20": {Gauges: true, PersistErrFatal: true},
+	"C04": {StoreEveryStep: true, FinalReopen: true, PersistErrFatal: true},
+	"C07": {CollEveryStep: true, StoreEveryStep: true, Compaction: true, Handles: true},
+	"C15": {Handles: true},
 }
 
 type runner func(t TB, p *Program)
